@@ -78,6 +78,7 @@ func runC03(c *Ctx) {
 	ruleCRCExtraPreimage(c, "R3.4")
 	ruleSizeArithmetic(c, "R3.5")
 	ruleDialectData(c, "R3.6", true)
+	ruleStrings(c, "R3.7")
 }
 
 // R3.1
